@@ -833,6 +833,21 @@ fn record_inflight(case: &Case) {
     let _ = std::fs::write(inflight_dir().join(format!("{slot}.json")), serde_json::json!({ "case": case }).to_string());
 }
 
+/// Address-space limit for the supervised children: a serializer that walks a cyclic chain
+/// "blindly" allocates without bound for a ten-quad input; with the limit the allocation fails,
+/// the process aborts, and the supervisor attributes the abort to the in-flight case.
+const CHILD_AS_LIMIT: u64 = 16 << 30;
+fn limited(cmd: &mut std::process::Command) -> &mut std::process::Command {
+    use std::os::unix::process::CommandExt;
+    unsafe {
+        cmd.pre_exec(|| {
+            let lim = libc::rlimit { rlim_cur: CHILD_AS_LIMIT, rlim_max: CHILD_AS_LIMIT };
+            libc::setrlimit(libc::RLIMIT_AS, &lim);
+            Ok(())
+        })
+    }
+}
+
 pub fn main(opts: &Opts) -> i32 {
     if opts.replay.is_some() || std::env::var_os("VCHECK_C12_SUPERVISED").is_some() {
         return drive::<C12>(opts);
@@ -851,7 +866,7 @@ pub fn main(opts: &Opts) -> i32 {
         args.push("--cases".into());
         args.push(n.to_string());
     }
-    let status = std::process::Command::new(&exe).args(&args).env("VCHECK_C12_SUPERVISED", "1").status();
+    let status = limited(std::process::Command::new(&exe).args(&args).env("VCHECK_C12_SUPERVISED", "1")).status();
     let code = match status {
         Err(e) => {
             println!("INCONCLUSIVE: cannot start the supervised run: {e}");
@@ -870,7 +885,7 @@ pub fn main(opts: &Opts) -> i32 {
     let mut found = 0;
     let mut seen_sigs = BTreeSet::new();
     for f in files {
-        let st = std::process::Command::new(&exe).arg("C12").arg("--replay").arg(&f).env("VCHECK_C12_SUPERVISED", "1").output();
+        let st = limited(std::process::Command::new(&exe).arg("C12").arg("--replay").arg(&f).env("VCHECK_C12_SUPERVISED", "1")).output();
         let killed = matches!(&st, Ok(o) if !matches!(o.status.code(), Some(0 | 1 | 2)));
         if !killed {
             continue;
